@@ -487,7 +487,7 @@ def desugar_loop(b, spec, hdr):
         return b[:m.start()] + block + b[cp + 1 + tail.end():]
     else:
         _, cv, xv, coll = spec
-        m = re.search(r'for %s in &%s \{' % (re.escape(xv), re.escape(coll)), b)
+        m = re.search(r'for %s in &?%s \{' % (re.escape(xv), re.escape(coll)), b)
         head = 'let mut %s: usize = 0; while %s < %s.len() { let %s = &%s[%s];' % (cv, cv, coll, xv, coll, cv)
         inc = '%s += 1;' % cv
     if not m:
